@@ -153,6 +153,41 @@ pub fn dispatch(name: &str, args: &[&str]) -> Option<String> {
             let (got, closed) = play(port, args[0]);
             Some(format!("out={} closed={}", hex(&got), closed as u8))
         }
+        // survive <k>: k connections are open and have been served once (keep-alive); a further connection makes a handler
+        // panic; every one of the k connections must still be served afterwards ("a panicking handler costs only its own
+        // connection")
+        "survive" => {
+            let port = server();
+            let k: usize = args[0].parse().unwrap();
+            let req = b"GET /fixed HTTP/1.1\r\nHost: x\r\nConnection: keep-alive\r\n\r\n";
+            let mut others = Vec::new();
+            for _ in 0..k {
+                let mut s = TcpStream::connect(("127.0.0.1", port)).unwrap();
+                s.set_nodelay(true).unwrap();
+                s.write_all(req).unwrap();
+                let (b, _) = read_available(&mut s, 1500, 40);
+                if !b.starts_with(b"HTTP/1.1 200") {
+                    return Some("setup-failed".into());
+                }
+                others.push(s);
+            }
+            let mut a = TcpStream::connect(("127.0.0.1", port)).unwrap();
+            a.write_all(b"GET /panic HTTP/1.1\r\nHost: x\r\nConnection: keep-alive\r\n\r\n").unwrap();
+            let (pb, pclosed) = read_available(&mut a, 1500, 40);
+            let mut ok = 0;
+            for s in others.iter_mut() {
+                s.write_all(req).unwrap();
+                let (b, _) = read_available(s, 1500, 40);
+                if b.starts_with(b"HTTP/1.1 200") && b.ends_with(b"hello\r\n") || b.starts_with(b"HTTP/1.1 200") && b.ends_with(b"hello") {
+                    ok += 1;
+                }
+            }
+            // and the server still accepts new connections
+            let mut n = TcpStream::connect(("127.0.0.1", port)).unwrap();
+            n.write_all(req).unwrap();
+            let (nb, _) = read_available(&mut n, 1500, 40);
+            Some(format!("panicking={}:{} others={}/{} fresh={}", pb.len(), pclosed as u8, ok, k, nb.starts_with(b"HTTP/1.1 200") as u8))
+        }
         _ => None,
     }
 }
